@@ -11,6 +11,9 @@ mod ckey;
 mod crash;
 mod c12;
 mod c13;
+mod c16;
+mod c16s;
+mod probe;
 mod c19;
 mod rng;
 mod sched;
@@ -85,6 +88,11 @@ fn main() {
         ("c08", "exec") => c08::exec(&args),
         ("c13", "gen") => c13::gen(&args),
         ("c13", "exec") => c13::exec(&args),
+        ("c16", "gen") => c16::gen(&args),
+        ("c16", "exec") => c16::exec(&args),
+        ("c16s", "gen") => c16s::gen(&args),
+        ("c16s", "exec") => c16s::exec(&args),
+        ("probe", "failed-open") => probe::failed_open(),
         ("c19", "gen") => c19::gen(&args),
         ("c19", "exec") => c19::exec(&args),
         ("c19", "child") => c19::child(&args),
